@@ -198,6 +198,10 @@ static void good_copy_postinc(unsigned char *d, const unsigned char *s) { while 
 static void bad_OUT6_overtake(char *s) { char *w = s; while (*s) { w[0] = *s; w[1] = ' '; w += 2; s++; } *w = 0; }
 static void good_inplace(char *s) { char *w = s; while (*s) { if (*s != ' ') { *w++ = *s; } s++; } *w = 0; }
 
+/* PFX1 */
+int bad_PFX1_inside(const char *pointer, const char *container) { size_t n = strlen(container); if (strncmp(pointer, container, n) != 0) { return 0; } return pointer[n] != '\0'; }
+int good_inside(const char *pointer, const char *container) { size_t n = strlen(container); if (strncmp(pointer, container, n) != 0) { return 0; } return pointer[n] == '/'; }
+
 /* ESC1 */
 char *bad_ESC1_raw_key(const char *path, const cJSON *member) { char *v = (char*)cJSON_malloc(strlen(path) + strlen(member->string) + 2); sprintf(v, "%s/%s", path, member->string); return v; }
 static void h_join(char *v, const char *path, const char *token) { sprintf(v, "%s/%s", path, token); }
